@@ -1,4 +1,5 @@
 import GitSizer.Proofs.History
+import GitSizer.Proofs.PathRes.Ops
 /-! # C08 — Footnotes name a real witness of each maximum
     Proved here (over the REGENERATED `recordBlob`): after recording any sequence of blobs, the cited
     blob is one of the recorded blobs and its size attains the reported maximum; the reported
@@ -6,8 +7,14 @@ import GitSizer.Proofs.History
     For the other metrics the same `AdjustMax…`/`setPath` pattern is checked per case by the
     `graph` and `e2e` engines (every cited object must be reachable, of the right kind and attain the
     reported value), and every printed description is resolved with the real `git rev-parse`
-    (git is the judge the property names). The path-description algorithm of
-    sizes/path_resolver.go is not modelled in Lean. -/
+    (git is the judge the property names).
+    **Descriptions** (second part of this file): `sizes/path_resolver.go` is modelled statement by
+    statement (`Model/PathResolver`: arena of `Path` objects, `soughtPaths`, request / forget /
+    RecordName / RecordTreeEntry / RecordCommit, `Path()`, `TreePrefix()`, `revision()`,
+    `rootTreePrefix()`), git's revision syntax for the fragment is specified in `Spec/RevParse`
+    (validated against the real `git rev-parse` by the `revspec` engine), and it is PROVED that after
+    every operation sequence that is consistent with the repository every description printed
+    denotes exactly the object it is printed for. -/
 namespace GitSizer.C08
 open GitSizer GitSizer.Spec GitSizer.Graph GitSizer.Counts Gen
 
@@ -67,5 +74,134 @@ theorem max_blob_is_upper_bound (bs : List (Nat × BlobSize)) (h : HistorySize) 
 
 /-- non-vacuity: three blobs, the larger of two equal maxima first -/
 example : (recordBlobs {} [(5, ⟨10#64⟩), (6, ⟨30#64⟩), (7, ⟨30#64⟩)]).MaxBlobSizeBlob = some 6 := by decide +kernel
+
+
+/-! ## every printed description denotes its object -/
+
+open GitSizer.PathRes in
+/-- **For every repository, every consistent operation sequence (requests and forgets in any
+    number and order; tree entries, commit trees and root names reported in any order) and every
+    `Path` object: `String()` is the object id alone, or the object id followed by a revision
+    expression that git's syntax resolves to exactly that object.**  Hypotheses on the environment
+    (`EnvOK`): git's basic name resolution accepts no string with a top-level ':', object ids
+    resolve to their objects and consist of hex digits, a commit's tree is a tree. -/
+theorem descriptions_resolve (e : Env) (hok : EnvOK e) (ops : List Spec.Op) (hops : ∀ op ∈ ops, OpOK e op)
+    (st : State) (hrun : run ops = Res.ok st) (i : Nat) (rec : PathRec) (h : st.arena[i]? = some rec) :
+    pathString e.hex st i = e.hex rec.oid ∨
+    ∃ d, pathString e.hex st i = e.hex rec.oid ++ [32, 40] ++ d ++ [41] ∧ resolve e.r e.atom d = some rec.oid :=
+  pathString_correct hok st (run_inv hok ops hops st hrun).recs i rec h
+
+open GitSizer.PathRes in
+/-- the consistency panics of `RecordTreeEntry` / `RecordCommit` ("parent unexpectedly filled in")
+    are unreachable: on consistent arguments in a reachable state they return normally -/
+theorem record_ops_never_panic (e : Env) (hok : EnvOK e) (ops : List Spec.Op) (hops : ∀ op ∈ ops, OpOK e op)
+    (st : State) (hrun : run ops = Res.ok st) :
+    (∀ t nm c, OpOK e (.entry t nm c) → ∃ st', recordTreeEntry st t nm c = .ok st') ∧
+    (∀ c t, OpOK e (.commit c t) → ∃ st', recordCommit st c t = .ok st') := by
+  have inv := run_inv hok ops hops st hrun
+  constructor
+  · intro t nm c h
+    obtain ⟨s2, h2, _⟩ := recordTreeEntry_inv hok inv t nm c h.1 h.2.1 h.2.2.1 h.2.2.2.1 h.2.2.2.2.1 h.2.2.2.2.2
+    exact ⟨s2, h2⟩
+  · intro c t h
+    obtain ⟨s2, h2, _⟩ := recordCommit_inv hok inv c t h.1 h.2
+    exact ⟨s2, h2⟩
+
+/-! ### the three repaired defects, as kernel-checked facts about git's syntax (`Spec.resolve`) and
+    about the descriptions the model of the REPAIRED code prints -/
+section witnesses
+open GitSizer.PathRes
+
+/-- blob 0, tree 1 = {"{}" ↦ 0}, commit 2 (tree 1), tree 3 = {"sub" ↦ gitlink to commit 2}, commit 4 (tree 3) -/
+def wRepo : Repo := [.blob 10, .tree 0 [⟨0o100644, [123, 125], 0⟩], .commit 0 1 [], .tree 0 [⟨0o160000, [115, 117, 98], 2⟩], .commit 0 3 []]
+def wHex (i : Nat) : Bytes := 104 :: List.replicate i 120
+/-- "HEAD" ↦ commit 4, "a{b" ↦ commit 2 -/
+def wAtom (s : Bytes) : Option Nat :=
+  if s = [72, 69, 65, 68] then some 4 else if s = [97, 123, 98] then some 2
+  else match s with
+    | 104 :: t => if t.all (· == 120) then some t.length else none
+    | _ => none
+
+/-- F19: git does not see the ':' after the unclosed '{' of "a{b:{}" -/
+theorem F19_unclosed_brace : resolve wRepo wAtom [97, 123, 98, 58, 123, 125] = none := by decide
+/-- F21: "HEAD:sub^{tree}:{}" … and the prefix match: "a{b^{tree}" is fine, but git reads
+    "HEAD^{tree}:x}"-like strings as "HEAD^{tree}": here "HEAD:sub" names commit 2, and
+    "HEAD^{tree}:sub}" denotes the TREE 3, not an entry -/
+theorem F21_prefix_match : resolve wRepo wAtom [72, 69, 65, 68, 94, 123, 116, 114, 101, 101, 125, 58, 115, 117, 98, 125] = some 3 := by decide
+/-- F20: "HEAD:sub" denotes commit 2, but "HEAD:sub^{tree}" is a path that does not exist -/
+theorem F20_commit_by_path :
+    resolve wRepo wAtom [72, 69, 65, 68, 58, 115, 117, 98] = some 2 ∧
+    resolve wRepo wAtom [72, 69, 65, 68, 58, 115, 117, 98, 94, 123, 116, 114, 101, 101, 125] = none := by decide
+
+/-- non-vacuity of `descriptions_resolve`, and the repaired behaviour on the F20 input: the blob
+    below commit 2, which is named "HEAD:sub", is described through the commit's object id -/
+example :
+    (run [.request 0 .blob, .entry 1 [123, 125] 0, .commit 2 1, .name [72, 69, 65, 68, 58, 115, 117, 98] 2]).bind
+      (fun st => .ok (pathString wHex st 0)) = .ok (wHex 0 ++ [32, 40] ++ (wHex 2 ++ [58, 123, 125]) ++ [41]) := by decide
+
+example : resolve wRepo wAtom (wHex 2 ++ [58, 123, 125]) = some 0 := by decide
+
+
+/-- the environment hypotheses are satisfiable: they hold of this concrete repository -/
+theorem splitTop_mem_colon : ∀ (s : Bytes) (d : Nat) (rp : Bytes × Bytes), splitTop d s = some rp → colon ∈ s := by
+  intro s
+  induction s with
+  | nil => intro d rp h; simp [splitTop] at h
+  | cons c cs ih =>
+    intro d rp h
+    unfold splitTop at h
+    split at h
+    · cases h2 : splitTop (d + 1) cs with
+      | none => rw [h2] at h; cases h
+      | some x => exact List.mem_cons_of_mem _ (ih _ _ h2)
+    · split at h
+      · cases h2 : splitTop (d - 1) cs with
+        | none => rw [h2] at h; cases h
+        | some x => exact List.mem_cons_of_mem _ (ih _ _ h2)
+      · split at h
+        · rename_i hc; rw [hc.1]; exact List.mem_cons_self
+        · cases h2 : splitTop d cs with
+          | none => rw [h2] at h; cases h
+          | some x => exact List.mem_cons_of_mem _ (ih _ _ h2)
+
+theorem wEnv_ok : EnvOK ⟨wRepo, wAtom, wHex⟩ := by
+  constructor
+  · intro s hs
+    cases hsp : splitTop 0 s with
+    | none => rw [hsp] at hs; cases hs
+    | some rp =>
+      have hc := splitTop_mem_colon s 0 rp hsp
+      unfold wAtom
+      have h1 : s ≠ [72, 69, 65, 68] := by intro h; rw [h] at hc; revert hc; decide
+      have h2 : s ≠ [97, 123, 98] := by intro h; rw [h] at hc; revert hc; decide
+      simp only [h1, h2, if_false]
+      split
+      · rename_i t
+        have : colon ∈ t := by
+          rcases List.mem_cons.mp hc with h | h
+          · exact absurd h (by decide)
+          · exact h
+        have : t.all (· == 120) = false := by
+          rw [List.all_eq_false]
+          exact ⟨colon, this, by decide⟩
+        simp [this]
+      · rfl
+  · intro i
+    simp only [wAtom, wHex]
+    have h1 : (104 :: List.replicate i 120 : Bytes) ≠ [72, 69, 65, 68] := by simp
+    have h2 : (104 :: List.replicate i 120 : Bytes) ≠ [97, 123, 98] := by simp
+    simp [h1, h2]
+  · intro i c hc
+    simp only [wHex, List.mem_cons, List.mem_replicate] at hc
+    rcases hc with rfl | ⟨_, rfl⟩ <;> decide
+  · intro i; simp [wHex]
+  · intro c t h
+    match c with
+    | 0 | 1 | 3 => simp [commitTreeOf, wRepo, Repo.obj] at h
+    | 2 => simp [commitTreeOf, wRepo, Repo.obj] at h; subst h; decide
+    | 4 => simp [commitTreeOf, wRepo, Repo.obj] at h; subst h; decide
+    | c + 5 => simp [commitTreeOf, wRepo, Repo.obj] at h
+
+end witnesses
 
 end GitSizer.C08
